@@ -119,6 +119,8 @@ class Judge:
             return self.req(False, key, "field %r is %r, recomputed %r" % (name, got, want))
         tol = ROUND * scale + rel * max(abs(got), abs(want))
         err = abs(got - want)
+        if err > ROUND * scale:
+            self.ctx.maxobs("fieldrelerr-beyond-rounding." + name, err / max(abs(got), abs(want)))
         self.ctx.maxobs("fielderr/scale." + name, err / scale if scale > 0 else (0.0 if err == 0 else float("inf")))
         return self.req(err <= tol, key, "field %r = %r but recomputed from returned vectors %r (tol %.3g)" %
                         (name, got, want, tol), scale=scale)
@@ -173,10 +175,11 @@ def judge_cone_result(c, ctx, pr, sol, opts, prefix, qp=False, external=None, ch
         # --- every accuracy field equals its recomputation
         J.field_eq(sol, "primal objective", R["pcost"], max(R["pcost_scale"], 1e-300))
         J.field_eq(sol, "dual objective", R["dcost"], max(R["dcost_scale"], 1e-300))
-        if not external:
-            J.field_eq(sol, "gap", R["gap"], max(R["gap_scale"], 1e-300))
-        else:
-            J.field_eq(sol, "gap", R["gap"], max(R["gap_scale"], 1e-300), rel=1e-6)
+        # the native solvers report gap = lambda'lambda (scaled point), equal to <s,z> only as
+        # accurately as the Nesterov-Todd scaling of nearly complementary iterates: observed
+        # relative differences up to 7e-4 on the unchanged tree -> relative allowance 1e-2
+        # (a realistic defect - wrong 1/tau power, wrong vector - is off by O(1))
+        J.field_eq(sol, "gap", R["gap"], max(R["gap_scale"], 1e-300), rel=1e-2)
         J.field_eq(sol, "primal infeasibility", R["pres"], max(R["pres_scale"], 1e-300))
         J.field_eq(sol, "dual infeasibility", R["dres"], max(R["dres_scale"], 1e-300))
         J.field_eq(sol, "primal slack", -R["ts"], max(cone.snrm2(s, dims), 1e-300) if N else 1.0)
